@@ -12,7 +12,8 @@ DESC = 7
 CONS = ['', 'ptr', 'slice', 'array', 'anon-array', 'distinct', 'optional', 'error-union', 'struct', 'anon-struct', 'fn-ptr']
 LEAVES = ['int', 'uint', 'float', 'bool', 'str', 'char', 'type', 'any', 'rawptr', 'rawslice', 'void', 'nil', 'always-jumps', 'unknown']
 LAW_NAMES = {1: 'A fits A', 2: 'fit => cast', 4: 'weak-replaceable => fit', 8: 'max is symmetric', 16: 'max accepts both operands',
-             32: 'nominal types do not fit other nominal types / their underlying type', 64: 'distinct <-> underlying casts are accepted'}
+             32: 'nominal types do not fit other nominal types / their underlying type', 64: 'distinct <-> underlying casts are accepted',
+             128: 'no binary operator accepts a nominal operand with another nominal type / its strongly typed underlying type'}
 
 
 MAX_CAUSE = {1: 'max returns the distinct operand although the other (not weak-numeric) operand does not fit into it', 6: 'max returns the distinct operand although the weak numeric operand does not fit into it', 2: 'a zero-sized operand and `type` give `type`',
@@ -130,6 +131,8 @@ def run_laws(chk, prop, mask, tier, seed, parts=None):
                 key['cause'] = {1: 'the expected type is a distinct wrapper of any'}.get((r[1] >> 16) & 15, 'other')
             if bits != -1 and bit == 8:
                 key['cause'] = SYM_CAUSE.get((r[1] >> 12) & 15, 'other')
+            if bits != -1 and bit == 128:
+                key['cause'] = {1: 'a distinct with its own strongly typed non-integer underlying type'}.get((r[1] >> 20) & 15, 'other')
             kk = (key['law'], a, b)
             if kk in seen:
                 continue
